@@ -149,14 +149,8 @@ def run(ctx):
         lit = hq.struct_lits(db["body"], "MatchGeneratorDriver")
         f = {x["name"]: H.show(hq.peel(x["e"])) for x in lit[0]["fields"]} if lit else {}
         ctx.check(f.get("slice_size") == "slice_size", RC, "driver::stores-slice-size", db["file"], "the driver keeps the slice size it was given", observed=f.get("slice_size"))
-        # recycled spaces keep their size (resize to capacity)
-        n = 0
-        for fn in ("<%s as ruzstd::encoding::Matcher>::reset" % MGD, "<%s as ruzstd::encoding::Matcher>::commit_space" % MGD):
-            bb = ctx.hir(fn)
-            for cl in hq.find(bb["body"], lambda x: x.get("k") == "Closure" and len(x["params"]) == 2):
-                n += 1
-                ctx.check("data.resize(data.capacity(), 0)" in H.show(cl["body"]), RC, H.short(fn) + "::recycled-space-full-size", H.loc(bb, cl),
-                          "a recycled space is restored to its full size")
+        # recycled spaces keep their size: every push into the buffer pool follows `x.resize(x.capacity(), 0)` — decided at
+        # the push sites by C02.cover.frame-reset `pooled-buffer-full-length` (reported here as C15.flow.frame-reset)
         cb = ctx.hir(FC + "::compress")
         from . import c02 as _c02
         BF = _c02.block_facts(ctx)
